@@ -40,7 +40,14 @@ def _apply(op, r, rcls, rng):
         j = i.invert()
         return r if j is None else j
     if op.startswith("parse-flags"):
-        return VersionRange.from_string(str(r), simplify=op[-2] == "1", validate=op[-1] == "1")
+        text = str(r)
+        if rng.random() < 0.5 and "|" in text:
+            # the same constraints written in another order (the parser sorts before it simplifies)
+            head, body = text.split("/", 1)
+            items = body.split("|")
+            rng.shuffle(items)
+            text = head + "/" + "|".join(items)
+        return VersionRange.from_string(text, simplify=op[-2] == "1", validate=op[-1] == "1")
     raise AssertionError(op)
 
 
